@@ -96,6 +96,24 @@ func (c *apCtx) expr(e ast.Expr) apVal {
 		if isIdent(x.X, "orcas") {
 			return apVal{"orc", fmt.Sprintf("(OBase %s)", coqStr(x.Sel.Name))}
 		}
+		if (isIdent(x.X, "inmem") && x.Sel.Name == "New") || (isIdent(x.X, "handlers") && x.Sel.Name == "NilHandler") {
+			return apVal{"hnd", fmt.Sprintf("(HCall %s [])", coqStr(ltSquash(c.src(x))))}
+		}
+		if (isIdent(x.X, "binprot") || isIdent(x.X, "textprot")) && x.Sel.Name == "Components" {
+			return apVal{"proto", coqStr(x.X.(*ast.Ident).Name)}
+		}
+	case *ast.CompositeLit:
+		if ltSquash(c.src(x.Type)) == "[]protocol.Components" {
+			var ps []string
+			for _, el := range x.Elts {
+				v := c.expr(el)
+				if v.kind != "proto" {
+					return apVal{"protos", fmt.Sprintf("(PsOther %s)", coqStr(ltSquash(c.src(x))))}
+				}
+				ps = append(ps, v.g)
+			}
+			return apVal{"protos", fmt.Sprintf("(PsList [%s])", strings.Join(ps, "; "))}
+		}
 	case *ast.CallExpr:
 		if se, ok := x.Fun.(*ast.SelectorExpr); ok {
 			if isIdent(se.X, "orcas") && se.Sel.Name == "LockedWithExisting" && len(x.Args) == 2 {
@@ -103,6 +121,13 @@ func (c *apCtx) expr(e ast.Expr) apVal {
 				if in.kind == "orc" && ls.kind == "lset" {
 					return apVal{"orc", fmt.Sprintf("(OExisting %s %s)", in.g, ls.g)}
 				}
+			}
+			if isIdent(se.X, "memcached") && (se.Sel.Name == "Chunked" || se.Sel.Name == "Batched" || se.Sel.Name == "Regular") && len(x.Args) >= 1 {
+				var as []string
+				for _, a := range x.Args {
+					as = append(as, coqStr(ltSquash(c.src(a))))
+				}
+				return apVal{"hnd", fmt.Sprintf("(HCall %s [%s])", coqStr("memcached."+se.Sel.Name), strings.Join(as, "; "))}
 			}
 			if isIdent(se.X, "server") && (se.Sel.Name == "TCPListener" || se.Sel.Name == "UnixListener") && len(x.Args) == 1 {
 				return apVal{"lst", fmt.Sprintf("(%s %s)", map[string]string{"TCPListener": "LTcp", "UnixListener": "LUnix"}[se.Sel.Name], coqStr(ltSquash(c.src(x.Args[0]))))}
@@ -138,12 +163,22 @@ func (c *apCtx) other(kind, text string) apVal {
 	if kind == "lst" {
 		return apVal{"lst", fmt.Sprintf("(LsOther %s)", coqStr(text))}
 	}
+	if kind == "hnd" {
+		return apVal{"hnd", fmt.Sprintf("(HOther %s)", coqStr(text))}
+	}
+	if kind == "protos" {
+		return apVal{"protos", fmt.Sprintf("(PsOther %s)", coqStr(text))}
+	}
 	return apVal{"orc", fmt.Sprintf("(OOther %s)", coqStr(text))}
+}
+
+func apTracked(k string) bool {
+	return k == "orc" || k == "lset" || k == "lst" || k == "hnd" || k == "protos"
 }
 
 func (c *apCtx) tracked(name string) (apVal, bool) {
 	v, ok := c.lookup(name)
-	return v, ok && (v.kind == "orc" || v.kind == "lset" || v.kind == "lst")
+	return v, ok && apTracked(v.kind)
 }
 
 func (c *apCtx) stmt(s ast.Stmt) {
@@ -164,6 +199,8 @@ func (c *apCtx) stmt(s ast.Stmt) {
 					c.scopes[len(c.scopes)-1][n.Name] = apVal{"lset", "LZero"}
 				case "server.ListenConst":
 					c.scopes[len(c.scopes)-1][n.Name] = apVal{"lst", "LsUnset"}
+				case "handlers.HandlerConst":
+					c.scopes[len(c.scopes)-1][n.Name] = apVal{"hnd", "HUnset"}
 				}
 			}
 		}
@@ -195,7 +232,7 @@ func (c *apCtx) stmt(s ast.Stmt) {
 				v = apVal{"other", coqStr(ltSquash(c.src(x)))}
 			}
 			if x.Tok == token.DEFINE {
-				if v.kind == "orc" || v.kind == "lset" || v.kind == "lst" {
+				if apTracked(v.kind) {
 					c.scopes[len(c.scopes)-1][id.Name] = v
 				} else if old, was := c.tracked(id.Name); was {
 					// shadowing a tracked name with something unrecognised
@@ -241,7 +278,7 @@ func (c *apCtx) stmt(s ast.Stmt) {
 					c.scopes[i][n] = tv
 					continue
 				}
-				ctor := map[string]string{"orc": "OIf", "lset": "LIf", "lst": "LsIf"}[tv.kind]
+				ctor := map[string]string{"orc": "OIf", "lset": "LIf", "lst": "LsIf", "hnd": "HIf", "protos": "PsIf"}[tv.kind]
 				c.scopes[i][n] = apVal{tv.kind, fmt.Sprintf("(%s %s %s %s)", ctor, cond, tv.g, ev.g)}
 			}
 		}
@@ -276,7 +313,17 @@ func (c *apCtx) call(call *ast.CallExpr) {
 	if o.kind != "orc" {
 		o = c.other("orc", o.g)
 	}
-	c.serves = append(c.serves, fmt.Sprintf("mkServe %s %s %s %s %s", cond, l.g, o.g, coqStr(ltSquash(c.src(call.Args[4]))), coqStr(ltSquash(c.src(call.Args[5])))))
+	ps, h1, h2 := c.expr(call.Args[1]), c.expr(call.Args[4]), c.expr(call.Args[5])
+	if ps.kind != "protos" {
+		ps = c.other("protos", ps.g)
+	}
+	if h1.kind != "hnd" {
+		h1 = c.other("hnd", h1.g)
+	}
+	if h2.kind != "hnd" {
+		h2 = c.other("hnd", h2.g)
+	}
+	c.serves = append(c.serves, fmt.Sprintf("mkServe %s %s %s %s %s %s %s", cond, l.g, ps.g, coqStr(ltSquash(c.src(call.Args[2]))), o.g, h1.g, h2.g))
 }
 
 func (c *apCtx) block(b *ast.BlockStmt) {
@@ -322,7 +369,7 @@ func apptrans(e *env) {
 	af, err := parser.ParseFile(fs, filepath.Join(repo, "app", "memproxy.go"), nil, 0)
 	var serves []string
 	if err != nil {
-		serves = []string{fmt.Sprintf("mkServe BTrue (LsOther %s) (OOther %s) \"\" \"\"", coqStr("app/memproxy.go does not parse"), coqStr(err.Error()))}
+		serves = []string{fmt.Sprintf("mkServe BTrue (LsOther %s) (PsOther \"\") \"\" (OOther %s) HUnset HUnset", coqStr("app/memproxy.go does not parse"), coqStr(err.Error()))}
 	} else {
 		var fd *ast.FuncDecl
 		for _, d := range af.Decls {
@@ -331,7 +378,7 @@ func apptrans(e *env) {
 			}
 		}
 		if fd == nil || fd.Body == nil {
-			serves = []string{"mkServe BTrue (LsOther \"no func main\") (OOther \"no func main\") \"\" \"\""}
+			serves = []string{"mkServe BTrue (LsOther \"no func main\") (PsOther \"\") \"\" (OOther \"no func main\") HUnset HUnset"}
 		} else {
 			c := &apCtx{fs: fs}
 			c.block(fd.Body)
